@@ -75,12 +75,11 @@ def tree_jobs(tier):
     if tier != "quick":
         jobs.append(Job("h_tree::tree_rule", (3, 8, 2), {}, budget_s=3000, validate=60))
         jobs.append(Job("h_tree::tree_rule", (3, 6, 0), {}, budget_s=3000, validate=60))
-        jobs.append(Job("h_tree::tree_rule", (4, 8, 0), {}, budget_s=6000, validate=60))
     return jobs
 
 
 TREE_BOUNDS = {"records": "n <= 2 with digests [0-9a-z] and all hash-iteration orders of validate; n = 3 with digests in {a,b,r} (quick: one hash order; "
-                          "thorough: all orders, [0-9a-z] digests, n = 4 with {a,b,r})",
+                          "thorough: all orders, [0-9a-z] digests)",
                "shapes": "every record is a creation, an update / deletion / resolution marker of any earlier record, or the child of an unrecorded (dangling) parent",
                "orders": "every order of learning through add(); the opposite order through unvalidated_add()+validate(); one re-delivery"}
 TREE_ASSUME = ["revisions are built with the crate's own constructors (index = parent index + 1); one-character digests"]
@@ -93,7 +92,7 @@ def c05(tier):
 
 def c15(tier):
     jobs = []
-    combos = [(0, 6, 1), (1, 6, 1), (1, 6, 2), (2, 8, 1)] if tier == "quick" else [(0, 6, 1), (0, 6, 2), (1, 6, 1), (1, 6, 2), (2, 6, 1), (2, 8, 2), (3, 8, 1)]
+    combos = [(0, 6, 1), (1, 6, 1), (1, 6, 2), (2, 8, 1)] if tier == "quick" else [(0, 6, 1), (0, 6, 2), (1, 6, 1), (1, 6, 2), (2, 6, 1), (2, 8, 2)]
     for c in combos:
         jobs.append(Job("h_tree::tree_stage", c, {}, budget_s=3000, validate=40))
     s2 = [(4, 1, 0), (4, 1, 1)] if tier == "quick" else [(4, 1, 0), (4, 2, 0), (4, 1, 1), (6, 2, 1)]
